@@ -21,7 +21,7 @@ def fakeBase : Int := 1000000000000000
 
 structure DSt where
   fake : Bool
-  sat : Bool := false               -- `timed=sat`: follow the proposed F195 repair instead of the code as it is
+  sat : Bool := true                -- header `sat=0`: the tree under test lacks the F195 repair (f29ac4e4e): wrapping arithmetic
   env : Env := { pred := fun _ _ => false, clock := fun _ => 0 }
   w : World Float := {}
   names : List (String × Cond) := []
@@ -41,10 +41,10 @@ def init (ts : List String) : Option DSt :=
   match ts with
   | ["ptc", "clock=fake"] => some { fake := true }
   | ["ptc", "clock=real"] => some { fake := false }
-  | ["ptc", "clock=fake", "timed=wrap"] => some { fake := true }
-  | ["ptc", "clock=real", "timed=wrap"] => some { fake := false }
-  | ["ptc", "clock=fake", "timed=sat"] => some { fake := true, sat := true }
-  | ["ptc", "clock=real", "timed=sat"] => some { fake := false, sat := true }
+  | ["ptc", "clock=fake", "sat=1"] => some { fake := true }
+  | ["ptc", "clock=real", "sat=1"] => some { fake := false }
+  | ["ptc", "clock=fake", "sat=0"] => some { fake := true, sat := false }
+  | ["ptc", "clock=real", "sat=0"] => some { fake := false, sat := false }
   | _ => none
 
 def lookup {β} (xs : List (String × β)) (n : String) : Option β :=
@@ -171,16 +171,12 @@ def mkLeaf (d : DSt) (period : Option Float) (l : LeafSpec) : Option (Cond × DS
       some (r.1, { d1 with w := { d1.w with st := r.2 } })
     | none => none
   | .timed dur =>
-    let r := if d.sat then
-        ((.leaf i polled (.timed (endPointSat fakeBase (d1.env.clock d1.w.st.reads) (secondsToNsSat dur))) : Cond),
-          { d1.w.st with reads := d1.w.st.reads + 1 })
-      else mkTimedCoded d1.env fakeBase i polled (secondsToNs dur) d1.w.st
+    let r := if d.sat then mkTimedCoded d1.env fakeBase i polled (secondsToNsSat dur) d1.w.st
+      else mkTimedOld d1.env fakeBase i polled (secondsToNs dur) d1.w.st
     some (r.1, { d1 with w := { d1.w with st := r.2 } })
   | .timedNs ns =>
-    let r := if d.sat then
-        ((.leaf i polled (.timed (endPointSat fakeBase (d1.env.clock d1.w.st.reads) ns)) : Cond),
-          { d1.w.st with reads := d1.w.st.reads + 1 })
-      else mkTimedCoded d1.env fakeBase i polled ns d1.w.st
+    let r := if d.sat then mkTimedCoded d1.env fakeBase i polled ns d1.w.st
+      else mkTimedOld d1.env fakeBase i polled ns d1.w.st
     some (r.1, { d1 with w := { d1.w with st := r.2 } })
 
 def applyDef (d : DSt) : DefSpec → Option (Cond × DSt)
@@ -292,7 +288,7 @@ def step (d : DSt) (ts : List String) : DSt × String :=
         | .direct dur =>
           let dn := if d.sat then secondsToNsSat dur else secondsToNs dur
           let u := !d.fake && decide (-marginNs ≤ dn) && decide (dn ≤ marginNs)
-          (d, s!"polled=0 period={floatBits (-1.0)} v={if u then "?" else b01 (decide (d.clk > (if d.sat then endPointSat fakeBase d.clk dn else endPointCoded fakeBase d.clk dn)))}")
+          (d, s!"polled=0 period={floatBits (-1.0)} v={if u then "?" else b01 (decide (d.clk > (if d.sat then endPointSat fakeBase d.clk dn else endPointOld fakeBase d.clk dn)))}")
         | .polled dur itv =>
           let p := timedInterval dur itv
           (d, s!"polled={b01 (decide (0.0 < p))} period={floatBits p} v=0")
